@@ -1418,7 +1418,9 @@ func (w *World) inlinePlumbing(e *Expr) *Expr {
 	n := 0
 	for i := 0; i < res.Len(); i++ {
 		t := res.At(i).Type()
-		if isErrorType(t) || t.String() == "bool" {
+		if isErrorType(t) || t.String() == "bool" || w.enumResult(fn, i) {
+			// (a verdict — an error, a bool, an enumeration constant per return — stays a call: what it implies is read
+			// off the helper's returns by the guard primitives, wherever the verdict travels)
 			keep[i] = true
 		} else {
 			n++
@@ -2896,3 +2898,82 @@ func StripZeroAlts(e *Expr) *Expr {
 	}
 	return &ne
 }
+
+// enumResult: result i of fn has a named integer type and every (success) return hands back a constant there: a verdict
+// enumeration.
+func (w *World) enumResult(fn *ssa.Function, i int) bool {
+	res := fn.Signature.Results()
+	if i >= res.Len() {
+		return false
+	}
+	t := res.At(i).Type()
+	if _, named := t.(*types.Named); !named {
+		return false
+	}
+	bt, ok := t.Underlying().(*types.Basic)
+	if !ok || bt.Info()&types.IsInteger == 0 {
+		return false
+	}
+	n := 0
+	for _, r := range Returns(fn) {
+		if i >= len(r.Results) {
+			return false
+		}
+		c, isC := r.Results[i].(*ssa.Const)
+		if !isC || c.Value == nil {
+			return false
+		}
+		n++
+	}
+	return n >= 2
+}
+
+// BuiltItem is one element appended to a list built by appends alone, with the append that put it there.
+type BuiltItem struct {
+	Item *Expr
+	Site ssa.CallInstruction
+}
+
+// BuiltItems: the elements of a list built by appends alone, each with its append call (nil, false when the list has any
+// other origin, or an append's call is not known).
+func BuiltItems(e *Expr) ([]BuiltItem, bool) {
+	var out []BuiltItem
+	var visit func(e *Expr, depth int) bool
+	visit = func(e *Expr, depth int) bool {
+		if e == nil || depth > 8 {
+			return false
+		}
+		switch {
+		case e.Op == "phi":
+			for _, a := range e.Args {
+				if !visit(a, depth+1) {
+					return false
+				}
+			}
+			return true
+		case e.Op == "loop" || e.Op == "makeslice" || e.Op == "zero" || e.Op == "const" && e.Name == "nil":
+			return true
+		case e.Op == "call" && e.Name == "builtin:append" && len(e.Args) == 2:
+			if e.Call == nil || elementsAssigned(e.Call) || e.Args[1].Op != "list" {
+				return false
+			}
+			if !visit(e.Args[0], depth+1) {
+				return false
+			}
+			for _, it := range e.Args[1].Args {
+				out = append(out, BuiltItem{it, e.Call})
+			}
+			return true
+		case e.Op == "conv" && len(e.Args) == 1:
+			return visit(e.Args[0], depth+1)
+		}
+		return false
+	}
+	if !visit(e, 0) {
+		return nil, false
+	}
+	return out, true
+}
+
+// EnumResult: result i of fn is an enumeration verdict (a named integer type, a constant at every return).
+func (w *World) EnumResult(fn *ssa.Function, i int) bool { return fn != nil && w.enumResult(fn, i) }
